@@ -257,6 +257,10 @@ func (a *Activation) stdlibCall(st *State, callee *ssa.Function, cc *ssa.CallCom
 		mark()
 		g.trusted["sync.WaitGroup operations have no effect visible to the sequential code under verification"] = true
 		return Val{}, true
+	case "bufio.NewWriter", "bufio.NewWriterSize":
+		// a fresh buffered writer (its contents are not modelled)
+		mark()
+		return Val{T: g.newObject(st, "bufio.Writer")}, true
 	case "bufio.NewReader", "bufio.NewReaderSize":
 		// a fresh buffered reader; what can be read through it is what was left on the
 		// underlying reader when it was created
